@@ -4,7 +4,7 @@ CONSTANTS
   RollAt = 2
   NDel = 2
   NCons = 1
-  FixStale = FALSE
+  FixStale = TRUE
 VIEW view
-INVARIANTS QuiescentOK HeadFlagOK
+INVARIANTS Emit
 CHECK_DEADLOCK FALSE
